@@ -14,6 +14,11 @@ structure Src where
   canReset : Bool
   load : Bool
   e : Nat
+  /-- this input's tail vanishes: once its list is exhausted it answers HasNext() = true ONE more
+  time and the following Next() returns (0, false) (the imparity the Iterator contract allows) -/
+  ghost : Bool := false
+  /-- that phantom HasNext has not been consumed yet -/
+  ghostLeft : Bool := false
 deriving Repr, DecidableEq
 
 structure Mx where
@@ -22,19 +27,21 @@ structure Mx where
   st : Nat
 deriving Repr, DecidableEq
 
-def Src.mk' (l : List Nat) (canReset : Bool) : Src :=
-  { all := l, rest := l, canReset := canReset, load := false, e := 0 }
+def Src.mk' (l : List Nat) (canReset : Bool) (ghost : Bool := false) : Src :=
+  { all := l, rest := l, canReset := canReset, load := false, e := 0, ghost := ghost, ghostLeft := ghost }
 
 /-- Go: `Init(sf, it1, it2)` -/
-def Mx.init (l1 l2 : List Nat) (r1 r2 : Bool := true) : Mx :=
-  { s1 := Src.mk' l1 r1, s2 := Src.mk' l2 r2, st := 0 }
+def Mx.init (l1 l2 : List Nat) (r1 r2 : Bool := true) (g1 g2 : Bool := false) : Mx :=
+  { s1 := Src.mk' l1 r1 g1, s2 := Src.mk' l2 r2 g2, st := 0 }
 
-/-- Go: `if !src.load && src.it.HasNext() { src.e, src.load = src.it.Next() }` -/
+/-- Go: `if !src.load && src.it.HasNext() { src.e, src.load = src.it.Next() }`.
+On an exhausted input whose tail vanishes (`ghostLeft`) HasNext() answers true and Next() returns
+(0, false): the Go assignment stores exactly that pair. -/
 def Src.fetch (s : Src) : Src :=
   if s.load then s else
     match s.rest with
-    | [] => s
     | x :: xs => { s with rest := xs, e := x, load := true }
+    | [] => if s.ghostLeft then { s with ghostLeft := false, e := 0, load := false } else s
 
 /-- Go: `selectState()` -/
 def Mx.selectState (sf : Nat → Nat → Bool) (m : Mx) : Mx :=
@@ -65,7 +72,7 @@ deriving Repr, DecidableEq
 /-- Go: `srcDesc.reset()`; `false` = ErrUnimplemented -/
 def Src.reset (s : Src) : Src × Bool :=
   let s := { s with load := false, e := 0 }
-  if s.canReset then ({ s with rest := s.all }, true) else (s, false)
+  if s.canReset then ({ s with rest := s.all, ghostLeft := s.ghost }, true) else (s, false)
 
 /-- Go: `Reset()` -/
 def Mx.reset (m : Mx) : Mx × ResetOut :=
@@ -94,7 +101,7 @@ def merge (sf : Nat → Nat → Bool) : List Nat → List Nat → List Nat
   | x :: xs, y :: ys =>
     if sf x y then x :: merge sf xs (y :: ys) else y :: merge sf (x :: xs) ys
 
-/-- what source 1 / source 2 still owe the output -/
+/-- what source 1 / source 2 still owe the output (a vanishing tail owes it nothing) -/
 def Src.pending (s : Src) : List Nat := (if s.load then [s.e] else []) ++ s.rest
 
 /-- Spec state: the two pending lists plus what a Reset restarts from. -/
@@ -140,11 +147,13 @@ inductive Interleave : List Nat → List Nat → List Nat → Prop
   | left {x xs ys zs} : Interleave xs ys zs → Interleave (x :: xs) ys (x :: zs)
   | right {y xs ys zs} : Interleave xs ys zs → Interleave xs (y :: ys) (y :: zs)
 
-/-- consistency of the cached selector state with the look-ahead (what `selectState` establishes) -/
+/-- consistency of the cached selector state with the look-ahead (what `selectState` establishes);
+an input counted as exhausted has also used up its phantom HasNext (`ghostLeft = false`) -/
 def Mx.Inv (sf : Nat → Nat → Bool) (m : Mx) : Prop :=
   (m.st = 0 ∨ m.st = 1 ∨ m.st = 2 ∨ m.st = 3) ∧
-  (m.st = 1 → m.s1.load = true ∧ ((m.s2.load = false ∧ m.s2.rest = []) ∨ (m.s2.load = true ∧ sf m.s1.e m.s2.e = true))) ∧
-  (m.st = 2 → m.s2.load = true ∧ ((m.s1.load = false ∧ m.s1.rest = []) ∨ (m.s1.load = true ∧ sf m.s1.e m.s2.e = false))) ∧
-  (m.st = 3 → m.s1.load = false ∧ m.s2.load = false ∧ m.s1.rest = [] ∧ m.s2.rest = [])
+  (m.st = 1 → m.s1.load = true ∧ ((m.s2.load = false ∧ m.s2.rest = [] ∧ m.s2.ghostLeft = false) ∨ (m.s2.load = true ∧ sf m.s1.e m.s2.e = true))) ∧
+  (m.st = 2 → m.s2.load = true ∧ ((m.s1.load = false ∧ m.s1.rest = [] ∧ m.s1.ghostLeft = false) ∨ (m.s1.load = true ∧ sf m.s1.e m.s2.e = false))) ∧
+  (m.st = 3 → m.s1.load = false ∧ m.s2.load = false ∧ m.s1.rest = [] ∧ m.s2.rest = [] ∧
+    m.s1.ghostLeft = false ∧ m.s2.ghostLeft = false)
 
 end Mixer
